@@ -1,7 +1,7 @@
 """Scheduler layer (C10 / C11) on engine M2: the MIR of vm::Runtime::{run_n_steps, run_threads_round_robin,
 finish_thread_turn, drain_new_threads, update_status_helper, try_get_main, main, top} and VmGreenThread::{can_run, status},
 re-dumped from /repo's current source on every run, executed symbolically against a SCRIPTED thread step:
-VmGreenThread::run_n_steps(1) applies the next symbolic outcome of that thread's script
+VmGreenThread::run_n_steps is executed from its MIR too; VmGreenThread::step() applies the next symbolic outcome of that thread's script
 (continue / done / error / pending host call / spawn); the outcome variables are z3 bit-vectors shared between runs."""
 import fcntl
 import os
@@ -21,7 +21,7 @@ KIND = {"Done": 0, "PendingHostFunc": 1, "OutOfSteps": 2, "MainThreadError": 3}
 
 MIR_FUNCS = ["run_n_steps", "run_threads_round_robin", "finish_thread_turn", "drain_new_threads", "update_status_helper",
              "try_get_main", "main", "top"]
-THREAD_FUNCS = ["can_run", "status"]
+THREAD_FUNCS = ["can_run", "status", "run_n_steps", "validate"]
 
 
 def dump_mir():
@@ -312,6 +312,7 @@ class Sched:
             return []
 
         def scripted_step(m, st, fn, callee, args, dty):
+            """stands for VmGreenThread::step(): applies the next symbolic outcome of the thread's script; returns whether the thread goes on"""
             tf = S.tf
             t = m.load(st, args[0].base, args[0].proj)
             tid = t.f["tid"]
@@ -324,11 +325,11 @@ class Sched:
             m.oblige("a thread that is done, failed or waiting for the host is stepped", st, z3.Not(can_run))
             if args[0].base[1] in st.ghost.get("dropped", []):
                 m.oblige("a dropped thread is stepped", st, z3.BoolVal(True))
-            m.oblige("threads are stepped one instruction at a time", st, args[1] != 1)
             st.ghost["log"].append(tid)
             t.f[tf["done"]] = z3.Or(done, out == OUT_DONE)
             err.disc = z3.If(out == OUT_ERROR, z3.BitVecVal(1, 64), err.disc)
             pend.disc = z3.If(out == OUT_HOST, z3.BitVecVal(1, 64), pend.disc)
+            goes_on = z3.Not(z3.Or(out == OUT_DONE, out == OUT_ERROR, out == OUT_HOST))
             res = []
             if st.ghost["spawned"]:
                 st.pc.append(out != OUT_SPAWN)  # stated bound: at most one spawn per run
@@ -342,12 +343,26 @@ class Sched:
                 s2.ghost["threads"].append(o)
                 rt = s2.heap[s2.ghost["rt"]]
                 rt.f[S.rf["new_threads"]].items.append(BoxV(o))
-                res.append((s2, Token("unit")))
+                res.append((s2, z3.BoolVal(True)))
                 st.pc.append(out != OUT_SPAWN)
                 if not m.sat(st.pc):
                     return res
-            res.append((st, Token("unit")))
+            res.append((st, goes_on))
             return res
+
+        def unit(m, st, fn, callee, args, dty):
+            return [(st, Token("unit"))]
+
+        def opt_is_some(m, st, fn, callee, args, dty):
+            e = m.load(st, args[0].base, args[0].proj)
+            d = e.disc if z3.is_expr(e.disc) else z3.BitVecVal(e.disc, 64)
+            return [(st, d == 1)]
+
+        def int_min(m, st, fn, callee, args, dty):
+            return [(st, z3.If(z3.ULE(args[0], args[1]), args[0], args[1]))]
+
+        def int_max(m, st, fn, callee, args, dty):
+            return [(st, z3.If(z3.UGE(args[0], args[1]), args[0], args[1]))]
 
         return [
             (r"^VecDeque::<.*>::iter$", vd_iter),
@@ -365,7 +380,11 @@ class Sched:
             (r"Receiver::<.*>::try_recv$", try_recv),
             (r"^<Box<VmError> as Clone>::clone$", box_clone),
             (r"^VmGreenThread::top$", thread_top),
-            (r"^VmGreenThread::run_n_steps$", scripted_step),
+            (r"^VmGreenThread::step$", scripted_step),
+            (r"^VmGreenThread::maybe_gc$", unit),
+            (r"^Option::<.*>::is_some$", opt_is_some),
+            (r"^(<u32 as Ord>|<usize as Ord>|std::cmp::Ord|core::cmp::Ord)::min$|^std::cmp::min::<u(32|size)>$", int_min),
+            (r"^(<u32 as Ord>|<usize as Ord>|std::cmp::Ord|core::cmp::Ord)::max$|^std::cmp::max::<u(32|size)>$", int_max),
             (r"^Arguments::<.*>::from_str$", fmt_args),
             (r"^panic_fmt$|panicking::panic", panic),
         ]
